@@ -144,3 +144,93 @@ def is_evaluable(tree):
 
 def single_replay_case(cs, op, item):
     return {'ops': [cs['ops'][0], op], 'meta': {'kind': 'evalctx', 'ctx': cs['meta']['ctx'], 'items': [item]}}
+
+
+def inlining_cases():
+    """systematic part: term-function calls by substitution - nested calls, bound variables in arguments and bodies,
+    argument/local names colliding with the caller's locals (fixed small context)"""
+    import itertools
+    g = ty.TypedGen(__import__('random').Random(0))
+    c = g.ctx
+    X1 = ty.S(ty.E('X1'))
+    c.types.update({'X1': X1, 'S1': ty.S(X1), 'D1': X1})
+    c.traits['X1'] = 'nominal'
+    c.vclass.update({'X1': 'value', 'S1': 'value', 'D1': 'value'})
+    c.bases['X1'] = [1, 2, 3]
+    c.data.update({'X1': frozenset([1, 2, 3]), 'S1': frozenset([frozenset([1]), frozenset([2, 3])]), 'D1': frozenset([1, 3])})
+    defs = {
+        'F1': 'F1:==[a∈ℬ(X1)] D{x∈X1 | ∃y∈a (y=x)}',
+        'F2': 'F2:==[a∈ℬ(X1)] D{x∈X1 | F1[{x}]⊆a}',
+        'F3': 'F3:==[a∈ℬ(R1)] D{x∈a | ∀y∈a (x=y ∨ ¬x=y)}',
+        'F4': 'F4:==[x∈ℬ(X1), y∈ℬ(X1)] D{a∈x | a∈y}∪F1[y]',
+        'F5': 'F5:==[a∈ℬℬ(X1)] D{x∈X1 | ∃y∈a (x∈F3[y])}',
+        'F6': 'F6:==[a∈ℬ(X1)] I{(x,y) | x:∈a; y:∈F1[{x}]∪D1}',
+        'P1': 'P1:==[a∈ℬ(X1), b∈X1] ∀x∈a (x=b ∨ b∈F1[{x}])',
+    }
+    # build abstract trees through the reference structures: parse by hand is not available, so trees are written out
+    L = lambda n: N('ID_LOCAL', n)
+    G = lambda n: N('ID_GLOBAL', n)
+    call = lambda f, *a: N('NT_FUNC_CALL', None, [N('ID_PREDICATE' if f[0] == 'P' else 'ID_FUNCTION', f)] + list(a))
+    argd = lambda n, dom: N('NT_ARG_DECL', None, [L(n), dom])
+    BX = N('BOOLEAN', None, [G('X1')])
+    fdef = lambda name, args, body: N('PUNC_DEFINE', None, [N('ID_PREDICATE' if name[0] == 'P' else 'ID_FUNCTION', name), N('NT_FUNC_DEFINITION', None, [N('NT_ARGUMENTS', None, args), body])])
+    trees = {
+        'F1': fdef('F1', [argd('a', BX)], N('NT_DECLARATIVE_EXPR', None, [L('x'), G('X1'), N('EXISTS', None, [L('y'), L('a'), N('EQUAL', None, [L('y'), L('x')])])])),
+        'F2': fdef('F2', [argd('a', BX)], N('NT_DECLARATIVE_EXPR', None, [L('x'), G('X1'), N('SUBSET_OR_EQ', None, [call('F1', N('NT_ENUMERATION', None, [L('x')])), L('a')])])),
+        'F3': fdef('F3', [argd('a', N('BOOLEAN', None, [N('ID_RADICAL', 'R1')]))], N('NT_DECLARATIVE_EXPR', None, [L('x'), L('a'), N('FORALL', None, [L('y'), L('a'), N('OR', None, [N('EQUAL', None, [L('x'), L('y')]), N('NOT', None, [N('EQUAL', None, [L('x'), L('y')])])])])])),
+        'F4': fdef('F4', [argd('x', BX), argd('y', N('BOOLEAN', None, [G('X1')]))], N('UNION', None, [N('NT_DECLARATIVE_EXPR', None, [L('a'), L('x'), N('IN', None, [L('a'), L('y')])]), call('F1', L('y'))])),
+        'F5': fdef('F5', [argd('a', N('BOOLEAN', None, [N('BOOLEAN', None, [G('X1')])]))], N('NT_DECLARATIVE_EXPR', None, [L('x'), G('X1'), N('EXISTS', None, [L('y'), L('a'), N('IN', None, [L('x'), call('F3', L('y'))])])])),
+        'F6': fdef('F6', [argd('a', BX)], N('NT_IMPERATIVE_EXPR', None, [N('NT_TUPLE', None, [L('x'), L('y')]), N('ITERATE', None, [L('x'), L('a')]), N('ITERATE', None, [L('y'), N('UNION', None, [call('F1', N('NT_ENUMERATION', None, [L('x')])), G('D1')])])])),
+        'P1': fdef('P1', [argd('a', BX), argd('b', G('X1'))], N('FORALL', None, [L('x'), L('a'), N('OR', None, [N('EQUAL', None, [L('x'), L('b')]), N('IN', None, [L('b'), call('F1', N('NT_ENUMERATION', None, [L('x')]))])])])),
+    }
+    for name in ['F1', 'F2', 'F3', 'F4', 'F5', 'F6', 'P1']:
+        res = rt.check_expression(trees[name], c.ref())
+        assert res['status'] == 'ok', (name, res)
+        c.types[name] = res['type']
+        c.funcs[name] = res['args']
+        c.vclass[name] = 'value'
+        c.bodies[name] = trees[name]
+        c.texts[name] = rg.render(trees[name], 'MATH')[0]
+    sets = [G('X1'), G('D1')]
+    unary = ['F1', 'F2', 'F3']
+    exprs = []
+    for s0 in sets:
+        for f in unary:
+            exprs.append(call(f, s0))
+            for h in unary:
+                exprs.append(call(f, call(h, s0)))
+                exprs.append(N('INTERSECTION', None, [call(f, s0), call(f, call(h, s0))]))
+                exprs.append(N('INTERSECTION', None, [call(f, call(h, s0)), call(f, s0)]))
+        exprs.append(call('F4', s0, call('F1', s0)))
+        exprs.append(call('F4', call('F2', s0), s0))
+        exprs.append(call('F6', s0))
+        exprs.append(call('F6', call('F2', s0)))
+        exprs.append(call('F5', G('S1')))
+        exprs.append(call('F5', N('NT_ENUMERATION', None, [s0, call('F1', s0)])))
+        # caller locals colliding with function locals / argument names
+        for v in ('x', 'y', 'a'):
+            exprs.append(N('NT_DECLARATIVE_EXPR', None, [L(v), G('X1'), N('SUBSET_OR_EQ', None, [call('F1', N('NT_ENUMERATION', None, [L(v)])), s0])]))
+            exprs.append(N('NT_DECLARATIVE_EXPR', None, [L(v), G('X1'), N('IN', None, [L(v), call('F2', N('UNION', None, [N('NT_ENUMERATION', None, [L(v)]), s0]))])]))
+            exprs.append(N('FORALL', None, [L(v), G('X1'), call('P1', N('NT_ENUMERATION', None, [L(v)]), L(v))]))
+            exprs.append(N('EXISTS', None, [L(v), G('S1'), N('EQUAL', None, [call('F3', L(v)), call('F1', L(v))])]))
+            exprs.append(N('NT_IMPERATIVE_EXPR', None, [call('F1', N('NT_ENUMERATION', None, [L(v)])), N('ITERATE', None, [L(v), call('F2', s0)])]))
+    ref = c.ref()
+    cases = []
+    ops = [{'op': 'rs.ctx', 'ctx': 'c', 'spec': c.spec()}]
+    items = []
+    for e in exprs:
+        res = rt.check_expression(e, ref)
+        if res['status'] != 'ok':
+            continue
+        for label, vt, syntax, style in variants(e, res['type'], __import__('random').Random(1))[:3]:
+            src = rg.map_locals(vt, lambda x: x)
+            text, _sp = rg.render(src, syntax, None, **STYLES[0])
+            ops.append({'op': 'rs.eval', 'ctx': 'c', 'text': text, 'syntax': syntax})
+            items.append({'tree': src, 'base': label == 'math', 'variant': label, 'mut': 'inlining', 'text': text, 'syntax': syntax})
+    meta_ctx = {'types': c.types, 'funcs': c.funcs, 'traits': c.traits, 'vclass': c.vclass, 'bodies': c.bodies,
+                'data': {k: (v if isinstance(v, bool) else sm.enum_spec(v)) for k, v in c.data.items()}}
+    # one case per 12 expressions (a death loses at most one small case)
+    out = []
+    for k in range(0, len(items), 12):
+        out.append(core.case([ops[0]] + ops[1 + k:1 + k + 12], kind='evalctx', ctx=meta_ctx, items=items[k:k + 12]))
+    return out
